@@ -141,6 +141,15 @@ class Names:
         stored.discard(self.live)
         if len(stored) == 1:
             self.target = stored.pop()
+        # the "no item held" marker: a class-level attribute of the state bound to a fresh object()
+        self.sentinel = None
+        sinfo = ctx.pkg.cls("itertools._GroupByState")
+        from .common import uncast
+        for s_ in sinfo.node.body:
+            tgt = s_.targets[0] if isinstance(s_, ast.Assign) else s_.target if isinstance(s_, ast.AnnAssign) else None
+            val = uncast(s_.value) if isinstance(s_, (ast.Assign, ast.AnnAssign)) and s_.value is not None else None
+            if isinstance(tgt, ast.Name) and isinstance(val, ast.Call) and norm(val.func) in ("object", "Sentinel") :
+                self.sentinel = tgt.id
         missing = [k for k, v in vars(self).items() if v is None]
         if missing:
             raise AnalysisError(f"groupby machinery: could not derive the attribute(s) {missing} (anchor moved)")
@@ -210,7 +219,10 @@ def r16_1_3_group(ctx, N) -> None:
 
 
 def r16_2(ctx, N) -> None:
-    u = ctx.unit("itertools.GroupBy.__anext__")
+    from asl.inline import private_class_policy
+    # the scan may live in a helper of the (private) state class: look at what the advance does
+    u = ctx.inlined(ctx.unit("itertools.GroupBy.__anext__"), policy=private_class_policy,
+                    keep=("step", "maybe_step", "consume_value", "aclose"))
     cfg = cfg_of(u)
     main = [n for n in cfg.nodes if not n.tag]
     stores = [n for n in main if n.kind == "store" and any(
@@ -247,9 +259,9 @@ def r16_2(ctx, N) -> None:
         ctx.check(len(made) == 1 and norm(made[0].args[0]) == norm(key) and _is_state_expr(made[0].args[1]), "R16.2", u,
                   made[0] if made else r, "the returned group is bound to the returned key and the shared state")
     # scan loop (R16.3)
-    loops = [n for n in own_nodes(u.node) if isinstance(n, ast.While)]
+    loops = [n for n in own_nodes(u.node) if isinstance(n, ast.While) and not getattr(n, "asl_once", False)]
     ok = len(loops) == 1 and isinstance(loops[0].test, ast.Compare) and isinstance(loops[0].test.ops[0], ast.Eq) \
-        and f".{N.key}" in norm(loops[0].test) and "target" in norm(loops[0].test) \
+        and f".{N.key}" in norm(loops[0].test) and _reads_target(ctx, u, cfg, loops[0], N) \
         and any(isinstance(x, ast.Await) and norm(x.value).endswith(".step()") for b in loops[0].body for x in ast.walk(b))
     ctx.check(ok, "R16.3", u, loops[0] if loops else "__anext__", "the advance skips (steps over) the rest of the "
               "previous run: while the cursor key equals the previous target key")
@@ -260,6 +272,10 @@ def r16_2(ctx, N) -> None:
                   and isinstance(n.ast.ops[0], (ast.Eq, ast.NotEq)) and f".{N.key}" in norm(n.ast)
                   and n.in_loop()]
     no_target = [n for n in main if n.kind == "handler" and "AttributeError" in norm(n.info.get("type"))]
+    # ``hasattr(state, "<target>")`` false: there is no previous group either
+    no_target += [s_ for n in main if n.kind == "branch" and isinstance(n.ast, ast.Call) and norm(n.ast.func) == "hasattr"
+                  and len(n.ast.args) == 2 and isinstance(n.ast.args[1], ast.Constant) and n.ast.args[1].value == N.target
+                  for (lab, s_) in n.succ if lab == "f"]
 
     def scan_exit(t) -> str:
         return "f" if isinstance(t.ast.ops[0], ast.Eq) else "t"
@@ -281,6 +297,23 @@ def r16_2(ctx, N) -> None:
     ctx.check(ok, "R16.3", u, tstores[0] if tstores else "__anext__", "the new target key is the key of the first item of the new run")
 
 
+def _reads_target(ctx, u, cfg, loop: ast.While, N) -> bool:
+    """one side of the scan test is the previous target key (directly or through a local)"""
+    from .common import name_value
+    test = loop.test
+    node = next((n for n in cfg.nodes if n.kind == "branch" and n.ast is test and not n.tag), None)
+    for side in (test.left, test.comparators[0]):
+        if isinstance(side, ast.Attribute) and side.attr == N.target:
+            return True
+        if isinstance(side, ast.Name) and node is not None:
+            from asl.flow import reaching
+            defs = reaching(cfg).defs_at(node, side.id)
+            vals = [d.info.get("value") for d in defs if d.kind == "store"]
+            if vals and all(isinstance(v, ast.Attribute) and v.attr == N.target for v in vals):
+                return True
+    return False
+
+
 def r16_3_state(ctx, N) -> None:
     cv = ctx.unit("itertools._GroupByState.consume_value")
     cfg = cfg_of(cv)
@@ -288,7 +321,7 @@ def r16_3_state(ctx, N) -> None:
         isinstance(x, ast.Attribute) and x.attr == N.value and isinstance(x.ctx, ast.Store)
         for t in n.info.get("targets", []) for x in ast.walk(t))]
     rets = [n for n in cfg.nodes if n.kind == "return" and not n.tag]
-    ok = len(resets) == 1 and len(rets) == 1 and "_sentinel" in norm(resets[0].info.get("value"))
+    ok = len(resets) == 1 and len(rets) == 1 and f".{N.sentinel}" in norm(resets[0].info.get("value"))
     if ok:
         rv = rets[0].info.get("value")
         # the returned value is the field's content read before the reset
@@ -307,7 +340,7 @@ def r16_3_state(ctx, N) -> None:
     cfg = cfg_of(ms)
     steps = [n for n in cfg.nodes if n.kind == "await" and not n.tag]
     tests = [n for n in cfg.nodes if n.kind == "branch" and isinstance(n.ast, ast.Compare) and isinstance(n.ast.ops[0], (ast.Is, ast.IsNot))
-             and f".{N.value}" in norm(n.ast) and "_sentinel" in norm(n.ast)]
+             and f".{N.value}" in norm(n.ast) and f".{N.sentinel}" in norm(n.ast)]
     ok = len(steps) == 1 and len(tests) == 1
     if ok:
         t = tests[0]
@@ -320,7 +353,7 @@ def r16_3_state(ctx, N) -> None:
     gcfg = cfg_of(g)
     for a in [n for n in gcfg.nodes if n.kind == "await" and not n.tag and norm(n.info.get("value")).endswith(".step()")]:
         gtests = [n for n in gcfg.nodes if n.kind == "branch" and isinstance(n.ast, ast.Compare)
-                  and isinstance(n.ast.ops[0], (ast.Is, ast.IsNot)) and f".{N.value}" in norm(n.ast) and "_sentinel" in norm(n.ast)]
+                  and isinstance(n.ast.ops[0], (ast.Is, ast.IsNot)) and f".{N.value}" in norm(n.ast) and f".{N.sentinel}" in norm(n.ast)]
         path = find_path(gcfg.entry, lambda x, a=a: x is a, edge_ok=lambda p, lab, b: lab not in ("e", "p") and not (
             p in gtests and lab == ("t" if isinstance(p.ast.ops[0], ast.Is) else "f")))
         ctx.check(path is None and bool(gtests), "R16.3", g, a, "a group steps the cursor only when no unconsumed item is held", node=a)
@@ -362,5 +395,5 @@ def r16_4(ctx, N) -> None:
                     ctx.check(all(isinstance(o, (ast.Eq, ast.NotEq)) for o in c.ops), "R16.4", m, c,
                               "user keys are compared by equality only (like itertools.groupby)")
                 elif any(isinstance(o, (ast.Is, ast.IsNot)) for o in c.ops):
-                    ok = any(norm(o) in ("self", "None") or "_sentinel" in norm(o) for o in operands)
+                    ok = any(norm(o) in ("self", "None") or f".{N.sentinel}" in norm(o) for o in operands)
                     ctx.check(ok, "R16.4", m, c, "identity tests involve only library objects (self, None, sentinel, groups)")
